@@ -122,7 +122,9 @@ theorem geScalarMultBase_spec' {basePt : Pt} (_hB : GoodExt baseExt basePt) (hta
 theorem ptMul_spec {basePt : Pt} (htab : BaseTableOK basePt) (a : Bytes) (hlen : a.length = 32)
     (h31 : (a.getD 31 0).toNat ≤ 127) :
     GoodExt (ptMul a none) (leNat a • basePt)
-      ∧ ∀ (q : Ext) (Q : Pt), GoodExt q Q → GoodExt (ptMul a (some q)) (leNat a • Q) :=
-  ⟨geScalarMultBase_spec htab a hlen h31, fun _ _ hq => geScalarMult_spec a hlen h31 hq⟩
+      ∧ ∀ (q : Ext) (Q : Pt), GoodExt q Q → GoodExt (ptMul a (some q)) (leNat a • Q) := by
+  have hm : mulScalar a = a := by unfold mulScalar; rw [if_neg (by omega)]
+  exact ⟨by show GoodExt (geScalarMultBase (mulScalar a)) _; rw [hm]; exact geScalarMultBase_spec htab a hlen h31,
+    fun q _ hq => by show GoodExt (geScalarMult (mulScalar a) q) _; rw [hm]; exact geScalarMult_spec a hlen h31 hq⟩
 
 end Dos.Ge
